@@ -56,6 +56,11 @@ def check_class(ctx, fn, base, chain):
     if not parseable(ub):
         ctx.count("unparseable-not-judged")
         return
+    if S.edge_ws(base):
+        # a raw space token at the very edge of the URL is surrounding whitespace, so the structured case does not
+        # describe the URL any more (appending '#' or a port would turn it into content): not judged
+        ctx.count("base-edge-whitespace-not-judged")
+        return
     for m in MODES:
         ob = canon(fn, ub, m)
         if isinstance(ob, tuple):
